@@ -285,6 +285,7 @@ func init() {
 			{Name: "prefixes", Run: prefixUnit("fasta", false, 0)},
 			{Name: "edges", Run: edgeUnit("fasta")},
 			{Name: "lexicon", TShards: 4, Run: lexiconUnit("fasta")},
+			{Name: "mixedsizes", QShards: 4, TShards: 8, Run: mixedSizesUnit("fasta")},
 			{Name: "fieldlens", TShards: 2, Run: lengthUnit("fasta")},
 			{Name: "parallel", Race: true, Run: codecParallel("fasta")},
 			{Name: "histories", Run: codecHistories("fasta")},
